@@ -29,13 +29,15 @@ EXHAUSTIVE = {
     "thorough": "all operation sequences of length <= 4 over 7 prefix-related keys x {set small, "
                 "set 40-byte, delete} x prune {F,T}, plus the random histories",
 }
+# thorough tier: the repository's own tests replayed under these run-time contracts
+REPO_TESTS = {"files": ['tests/core/test_hexary_trie.py', 'tests/core/test_proof.py', 'tests/core/test_hexary_trie_walk.py'], "contracts": ["hexary_set_get", "hexary_delete_get"]}
 FLOORS = {
     "quick": {"probes": 100000, "probe_proper_prefix": 3000, "probe_extension": 3000,
               "probe_stored": 10000, "batch_commit": 200, "batch_abort": 100,
-              "in_batch_sweeps": 300},
+              "in_batch_sweeps": 300, "unobserved_ops": 2000},
     "thorough": {"probes": 1000000, "probe_proper_prefix": 30000, "probe_extension": 30000,
                  "probe_stored": 100000, "batch_commit": 2000, "batch_abort": 1000,
-                 "in_batch_sweeps": 3000, "exhaustive_sequences": 100000},
+                 "in_batch_sweeps": 3000, "exhaustive_sequences": 100000, "unobserved_ops": 20000},
 }
 
 SMALL_KEYS = [b"", b"\x12", b"\x12\x34", b"\x12\x34\x56", b"\x12\x34\x57", b"\x12\x35", b"\x1f"]
@@ -44,6 +46,12 @@ SMALL_VALUES = [b"a", b"B" * 40]
 
 class C01Runner(hh.Runner):
     def after_op(self, op):
+        # not every history is observed after every operation: a run of writes with no read in
+        # between is a different execution (nothing refreshes what a read may have remembered)
+        p = self.case.get("observe_p", 1.0)
+        if p < 1.0 and self.step < len(self.case["ops"]) and self.rnd.random() > p:
+            self.ctx.count("unobserved_ops")
+            return
         probes = gen.probe_keys(self.rnd, self.model)
         hh.lookup_sweep(self.trie, self.model, probes, self.ctx)
         self.ctx.count("sweeps")
@@ -51,6 +59,10 @@ class C01Runner(hh.Runner):
             self.ctx.shape((RefTrie(self.model).shape(), self.prune))
 
     def after_batch_op(self, btrie, bmodel, op):
+        p = self.case.get("observe_p", 1.0)
+        if p < 1.0 and self.rnd.random() > p:
+            self.ctx.count("unobserved_ops")
+            return
         both = dict(self.model)
         both.update(bmodel)
         probes = gen.probe_keys(self.rnd, both, extra=2)
@@ -93,6 +105,7 @@ def run_shard(ctx):
     maxops = 25 if ctx.tier == "quick" else 60
     for i in range(n):
         case = hh.gen_history(rnd, rnd.randint(1, maxops))
+        case["observe_p"] = rnd.choice([1.0, 1.0, 0.5, 0.2])
         if i < 2:
             ctx.sample(case)
         run_case_guarded(mod, case, ctx)
